@@ -227,15 +227,21 @@ type adpEnt struct {
 	reported string
 	deferred bool
 	pastErr  bool
+	bound    bool
+	fed      bool // real-socket mode: the peer made this loop's read fail
+	counted  bool
 	preSeen  bool
 	incIdx   int // incarnation that was current when this closer passed the presignal point
 	gate     chan struct{}
 }
 
 type adpCtl struct {
-	tr   *scriptT
-	ft   frugal.FTransport
-	evq chan interface{} // hookEv | monEv | callRes, in the order the real system produced them
+	tr      *scriptT
+	sock    *sockPeer // real-TSocket mode (adapter_sock.go): tr is nil
+	curLoop *adpEnt
+	exits   int32 // read loops that have returned (counted even after abort)
+	ft      frugal.FTransport
+	evq     chan interface{} // hookEv | monEv | callRes, in the order the real system produced them
 
 	hmu      sync.Mutex
 	armErr   bool
@@ -287,8 +293,11 @@ func adpInstallHook() {
 
 func (c *adpCtl) hook(point string) {
 	g := goid()
+	if point == "adapter.readloop.exit" {
+		atomic.AddInt32(&c.exits, 1)
+	}
 	c.hmu.Lock()
-	if !c.known[g] || c.aborted {
+	if (!c.known[g] && c.sock == nil) || c.aborted {
 		c.hmu.Unlock()
 		return
 	}
@@ -353,6 +362,12 @@ func (c *adpCtl) loopEnt(g int64) *adpEnt {
 	if e, ok := c.ents[g]; ok {
 		return e
 	}
+	if c.sock != nil && c.curLoop != nil && !c.curLoop.bound {
+		// real-socket mode: the only read loop alive is the one of the latest incarnation
+		c.curLoop.bound = true
+		c.ents[g] = c.curLoop
+		return c.curLoop
+	}
 	e := &adpEnt{isLoop: true, idx: len(c.incs), st: "run"}
 	c.ents[g] = e
 	c.order = append(c.order, e)
@@ -380,6 +395,15 @@ func (c *adpCtl) opened(ch <-chan error) {
 	c.incVals = append(c.incVals, nil)
 	c.incClosed = append(c.incClosed, false)
 	c.incFail = append(c.incFail, "")
+	if c.sock != nil {
+		c.nLoops++
+		c.curLoop = &adpEnt{isLoop: true, idx: len(c.incs), st: "read"}
+		c.order = append(c.order, c.curLoop)
+		if !c.sock.awaitAccept() {
+			c.violate("Open returned nil but the peer saw no connection")
+		}
+		return
+	}
 	for {
 		select {
 		case g := <-c.tr.arrive:
@@ -442,7 +466,14 @@ func (c *adpCtl) obsOpen() bool {
 }
 
 func (c *adpCtl) closeCompleted() {
-	c.expectErr += c.tr.takeWoken()
+	if c.sock != nil {
+		if c.curLoop != nil && !c.curLoop.fed && !c.curLoop.counted {
+			c.curLoop.counted = true
+			c.expectErr++ // its Read on the closed socket fails: it comes through the onerror point
+		}
+	} else {
+		c.expectErr += c.tr.takeWoken()
+	}
 	if c.monEarly > 0 {
 		c.monEarly--
 		return
@@ -1022,8 +1053,13 @@ func runAdp(hist []byte, cfg adpCfg) (string, []string) {
 	for len(c.parkedQ) > 0 {
 		fl = append(fl, "r="+step(len(hist), 11))
 	}
+	return c.finish(len(hist), outs, fl, cfg)
+}
+
+// finish: final observables, the per-incarnation oracle, cleanup.
+func (c *adpCtl) finish(nHist int, outs, fl []string, cfg adpCfg) (string, []string) {
 	// final observables
-	fin := c.startCall('I', len(hist)+1)
+	fin := c.startCall('I', nHist+1)
 	c.settle()
 	exited := 0
 	for _, e := range c.order {
@@ -1077,7 +1113,14 @@ func runAdp(hist []byte, cfg adpCfg) (string, []string) {
 		c.monGate = nil
 	}
 	c.hmu.Unlock()
-	if fin.res == "true" {
+	if c.sock != nil {
+		c.sock.shutdown()
+		guard(adpWatch, func() { c.ft.Close() })
+		// every read loop of this history has returned before the next history installs its controller
+		for dl := time.Now().Add(adpWatch); int(atomic.LoadInt32(&c.exits)) < c.nLoops && time.Now().Before(dl); {
+			time.Sleep(200 * time.Microsecond)
+		}
+	} else if fin.res == "true" {
 		guard(adpWatch, func() { c.ft.Close() })
 	} else {
 		c.tr.Close()
